@@ -6,6 +6,12 @@ VERIF = os.path.dirname(os.path.dirname(os.path.abspath(__file__)))
 TECH = "Kani 0.68 -> CBMC 6.11 bounded model checking (SAT, CaDiCaL) of the real Rust functions compiled from /repo's working tree; symbolic inputs, unwinding assertions on; counterexamples replayed natively"
 
 CLAIMED = {
+ "C01": dict(cat="model_checking", ref="DESIGN.md §3 C01",
+   text="Bounded inductive step: ONE execute_one call from an arbitrary invariant-satisfying pre-state (concrete command structure per grid point; every stack value, area count, label entry, input character symbolic) is decided by SAT to produce exactly the post-state, output bytes, reads, next location and exit behaviour of an independent step definition. 44 quick grid points (kinds x operands x stacks x area shapes x I/O stacks). Nothing is claimed for stacks deeper than 3, more than 3 operands, values outside the small domains, or the app/run.rs wiring.",
+   note="Trusted: Kani, CBMC, CaDiCaL, the step definition harness/spec.rs, and the value-level models that replace Num::add/mul and the bignum layer (decided separately under C05-C07). State = array-backed implementation of the public State trait with the real trait defaults."),
+ "C02": dict(cat="model_checking", ref="DESIGN.md §3 C02",
+   text="Bounded, partial: ONE opt_execute call (the optimiser's private re-implementation of the six commands) from the C01 pre-states: if it commits, state and captured output equal the language definition; if it gives up, state, command log and BOTH output streams are exactly as before and giving up was forced. The level-1 renumbering pass and OptState's in-range push/pop are NOT decided (HashMap / heap-backed vectors are beyond the symbolic executor) - see evidence.outside_claim.",
+   note="Same trusted base as C01. Differential through the shared definition: C01 decides execute_one against it, C02 decides opt_execute against it."),
  "C05": dict(cat="model_checking", ref="DESIGN.md §3 C05",
    text="Bounded: the real limb kernels (add/sub/less 1..3 limbs, mult up to 2x2, div 1x1 with constant divisors) and the public sign-dispatching operations, in-place variants, rem formula, gcd loop and BigNum::new are decided for every limb value and sign inside those sizes by SAT; a green run says nothing about longer operands or symbolic divisors.",
    note="Trusted: Kani MIR->GOTO, CBMC, CaDiCaL. Oracles: u128/i128 arithmetic, partial-product sums, division lemma. rem/gcd/in-place div are decided over exact one-limb models of the operations below them (stubs listed in evidence)."),
@@ -13,15 +19,28 @@ CLAIMED = {
    text="Bounded: the real Num::add/mul/optimize/flip/neg/minus/floor/is_pos and the NaN short-circuits are decided by SAT for all operand values inside small ranges (exact Euclid model: 4-7 bit; gcd contract model: 8-16 bit; loop-free operations: full 32-bit limb) against the canonical form of the exact rational result. Multi-limb operands are outside the claim.",
    note="Trusted: Kani, CBMC, CaDiCaL, and the one-limb models of BigNum::{add,mul,div,gcd} that replace the bignum layer (that layer is decided under C05; a model-validity harness compares the gcd model with the real loop)."),
  "C07": dict(cat="model_checking", ref="DESIGN.md §3 C07",
-   text="Bounded: for every pair of rationals with one-limb (32-bit) numerator/denominator and every sign, and NaN, the real partial_cmp returns the numeric order / None; branch choice of area::calc for small trees. The solver decides all 2^130 value combinations inside the bound; nothing is claimed for multi-limb operands.",
-   note="Trusted: Kani's MIR->GOTO translation, CBMC, CaDiCaL. Oracle: two u64 products. Assumes canonical inputs only as far as 'equal value => equal structure'."),
+   text="Bounded: for every pair of rationals with one-limb (32-bit) numerator/denominator and every sign, two-limb integers, and NaN, the real partial_cmp returns the numeric order / None; area::calc takes the branch the definition prescribes for 5 area shapes with symbolic popped values (integers, small fractions, NaN) and symbolic count. Nothing is claimed for multi-limb fractions.",
+   note="Trusted: Kani, CBMC, CaDiCaL. Oracle: two u64 products. Assumes canonical inputs only as far as 'equal value => equal structure'. The calc harnesses use the one-limb model of BigNum::mul."),
+ "C09": dict(cat="model_checking", ref="DESIGN.md §3 C09",
+   text="Bounded, partial: the reading direction (from_string_base: every ASCII text of 1-4 characters, bases 2/10/16/36, optional minus, rejection of foreign characters), the base-range errors of both directions, and one-digit rendering for every base are decided by SAT. Rendering of more than one digit, the integer round trip and the rational text round trip are NOT decided (strings of value-dependent length are beyond the symbolic executor) - see evidence.outside_claim.",
+   note="Trusted: Kani, CBMC, CaDiCaL, one-limb models of BigNum::{mul,add,new,rem,div}."),
+ "C10": dict(cat="model_checking", ref="DESIGN.md §3 C10",
+   text="Bounded: ONE opt_execute call with stack 0, 1 or 2 selected (before the command or by the command itself) for every command kind and all stack values: it returns 'gave up' with the untouched pre-state, the reader stub is never called, the exit stub is never reached, nothing is written. The 100-jump budget is only attempted in the thorough tier (stretch; it does not finish within the caps).",
+   note="Same trusted base as C01; reader and process::exit are replaced by stubs that turn any use into an assertion failure."),
+ "C14": dict(cat="model_checking", ref="DESIGN.md §3 C14",
+   text="Bounded, kernels only: the stdin refill (one pending line of 1-3 characters, code point symbolic over its whole UTF-8 length class, or end of input) and the stdout/stderr push (every value 0..0x120000) are decided by SAT against the definition: value = code point, NaN exactly at end of input, bytes = UTF-8 of the scalar or the encoding error. Copy programs as a whole, optimised and compiled variants are not decided.",
+   note="Same trusted base as C01; real UTF-8 decoding (str::Chars) and encoding (char Display) are part of the encoded code."),
 }
 
 NOT_APPLICABLE = {
- "C11": "debug::run keeps history stack, breakpoints and running flag as locals of one function that talks to real stdin/termcolor/ctrl-c; no part of that state logic can be executed symbolically without the I/O loop (Kani cannot model the FFI), and add-only hooks cannot split it. Its encodable dependencies (execute_one by value, CustomWriter::flush) are decided under C01/C12.",
- "C13": "process-level property (clap argument parsing, file system, io::handle -> process::exit): not encodable for a SAT-based checker of Rust code; the library-level panic-freedom it rests on is checked as a by-product of the C01/C02/C04/C10 harnesses.",
+ "C03": "compile::build_source is one 300-line format!-pipeline whose result is Rust text that still has to be compiled by rustc and run: Kani/CBMC cannot execute core::fmt at that volume (function-pointer dispatch per argument, strings of symbolic length -> spurious allocation failures, measured on much smaller string code under C09/C04), and the property's observable (behaviour of the produced executable) lies outside any SAT encoding of the repository's code. Defects seen while reading are listed in DESIGN.md, not as findings.",
+ "C04": "parse::parse builds Strings and a Vec of commands whose lengths depend on the (symbolic) characters; Kani/CBMC then allocates with symbolic sizes and reports spurious failures (1 symbolic character: false 'encode_utf8 panic' / misaligned-pointer reports that do not replay; 2 characters: out of memory at 12 GB). A harness with an independent recogniser was built (harness/h_pa.rs) and is kept, but it cannot be made to return sound verdicts, so nothing is claimed. The area-cursor defect seen while reading (`?형`) is described in DESIGN.md.",
+ "C08": "same engine limit as C04 (parse() on symbolic text, String-building renderers); no sound verdict can be produced.",
+ "C11": "debug::run keeps history stack, breakpoints and running flag as locals of one function that talks to real stdin/termcolor/ctrl-c; no part of that state logic can be executed symbolically without the I/O loop (Kani cannot model the FFI), and add-only hooks cannot split it. Its encodable dependency (execute_one by value) is decided under C01.",
+ "C12": "interpreter::run is an stdin/termcolor/ctrl-c loop that cannot be encoded; the only reachable part is execute() for one appended command, and that harness family finishes only for commands without an area (2 grid points), which is too thin to call the property decided. The harnesses are kept (prop=C12 in harness/h_ex.rs) and run with `./check C12`, but nothing is claimed.",
+ "C13": "process-level property (clap argument parsing, file system, io::handle -> process::exit): not encodable for a SAT-based checker of Rust code; the library-level panic-freedom it rests on is checked as a by-product of the C01/C02/C10 harnesses (CBMC checks every panic site on the explored paths).",
 }
-PENDING = "check not built yet in this session (solver harness under construction); see DESIGN.md for the plan"
+PENDING = "not claimed"
 
 ALL = ["C%02d" % i for i in range(1, 15)]
 
